@@ -119,7 +119,11 @@ where
         })
         .expect("spawn case thread");
     let mut last_act = activity();
-    let mut last_change = Instant::now();
+    // The quiet period is accumulated from the watchdog's own 50 ms ticks, each capped at 250 ms: time
+    // during which the whole process (or machine) was frozen - a stopped process, a virtual-machine
+    // snapshot - does not count, because the case thread could not make progress then either.
+    let mut last_tick = Instant::now();
+    let mut quiet_acc = Duration::ZERO;
     loop {
         match rx.recv_timeout(Duration::from_millis(50)) {
             Ok(Ok(r)) => {
@@ -137,13 +141,16 @@ where
                 return Guarded::Panicked(msg);
             }
             Err(mpsc::RecvTimeoutError::Timeout) => {
+                let dt = last_tick.elapsed().min(Duration::from_millis(250));
+                last_tick = Instant::now();
                 let a = activity();
                 if a != last_act || HOLDING.load(Ordering::SeqCst) > 0 {
                     last_act = a;
-                    last_change = Instant::now();
+                    quiet_acc = Duration::ZERO;
                     continue;
                 }
-                let quiet = last_change.elapsed().as_secs();
+                quiet_acc += dt;
+                let quiet = quiet_acc.as_secs();
                 let limit = if bg_panics() > bg0 {
                     QUIET_SECS_AFTER_BG_PANIC
                 } else {
